@@ -5,24 +5,34 @@ P = {
                   'redirected and plain module burns, DAO fund, liquidate, redeem, ERC20 conversions, EVM SetBalance, sends / mints), '
                   'each transcribed as the bank primitives its Go code calls: sum of balances = supply per denomination and no negative '
                   'balance are preserved; the redirected burn keeps "community pool + outstanding <= distribution account" (exact '
-                  'effect proved). The SDK\'s staking / distribution / governance invariants themselves are NOT proved: every registered '
+                  'effect proved). User level: Haqq\'s bank MsgSend / MsgMultiSend and the x/erc20 parameter EnableErc20 (part of the model '
+                  'state, changed by a parameter operation) are part of the step function: a send to a blocked address (module account, '
+                  'precompile address) is refused under both values of the parameter; for ALL histories of user operations the module '
+                  'accounts (but the erc20 escrow), the community pool, the outstanding rewards and the supply are unchanged (so the '
+                  'distribution account still EQUALS pool + outstanding and the pools hold what they held), and in ALL mixed histories '
+                  'every property over that view preserved by the module operations is preserved (module accounts change only through '
+                  'module operations); the variant with the recipient check behind the "ERC20 disabled" early return is refuted. The SDK\'s staking / distribution / governance invariants themselves are NOT proved: every registered '
                   'invariant route is evaluated after every EndBlock and every Commit of random mixed block histories on the real '
-                  'application (really signed Cosmos and Ethereum transactions), and the model is compared with the real keepers on '
+                  'application (really signed Cosmos and Ethereum transactions; governance parameter changes through the real MsgUpdateParams '
+                  'handlers inside the blocks; user transactions naming module accounts and precompile addresses as recipients before and '
+                  'after them, which must be refused), and the model is compared with the real keepers and the real bank message server on '
                   'generated operation sequences on every run',
     'level_note': 'partial: the theorem covers the bank/supply invariant and the Haqq side of the distribution-account invariant in a '
                   'hand-written model (tied to /repo by the sampled bankops correspondence); the SDK invariants (bonded / not-bonded '
                   'pools vs validator records, delegator shares, outstanding rewards, reference counts, gov deposits) are sampled only '
                   'by the block-history run; trusted: Coq kernel + vm_compute, std++, the Go harness; no axioms',
     'technique': 'Coq proof (invariant preserved by every primitive and by every composition, by induction over operation sequences) '
-                 '+ differential correspondence on operation sequences + crisis-keeper invariant routes after every block of random '
-                 'block histories on the real application',
+                 '+ differential correspondence on operation sequences (module operations, signed bank messages, the x/erc20 parameter) + '
+                 'crisis-keeper invariant routes after every block of random block histories (transactions, parameter changes, blocked '
+                 'recipients) on the real application, with the rule "no user transaction credits a blocked address" checked per transaction',
     'drivers': [
         {'name': 'invariants', 'n': {'quick': 60, 'thorough': 600}, 'shrink_field': 'blocks', 'batch': 12,
          'args': {'blocks': '20'}, 'timeout': 3000},
         {'name': 'bankops', 'n': {'quick': 300, 'thorough': 12000}, 'shrink_field': 'ops', 'batch': 5000},
     ],
     'coq_header': 'From HV Require Import Bank.InvariantModel.\nFrom Coq Require Import ZArith NArith List.\nImport ListNotations.',
-    'lists': {'ops': {'type': 'case', 'check': 'mismatches', 'shard': 40}},
+    'lists': {'ops': {'type': 'case', 'check': 'mismatches', 'shard': 40},
+              'hist': {'type': 'hcase', 'check': 'hmismatches', 'shard': 400}},
     'search': {'rounds': 3, 'n': 60},
     'rule': 'invariants: a case is one block history (quick: 20 blocks, thorough: 40) of 0-6 transactions per block on a fresh real '
             'application with 2-4 validators: really signed Cosmos transactions (bank send, delegate / undelegate / redelegate / cancel '
@@ -32,13 +42,30 @@ P = {
             'since genesis; sometimes a min deposit in two denominations; the three gov burn switches are on (one of them off in some '
             'histories), voting moods and a scripted proposal make deposits end vetoed / without quorum / dropped below the minimum, so that '
             'deposits of several denominations are burned = redirected to the community pool, also denominations new to the pool —, vesting conversion / clawback, liquidate / redeem, DAO fund / transfer, ERC20 '
-            'convert both ways, authz grant / exec) and really signed Ethereum transactions (transfers, script-contract call trees with '
+            'convert both ways, authz grant / exec, bank multi-send) and really signed Ethereum transactions (transfers, script-contract call trees with '
             'nested calls, reverts and calls into the staking / distribution precompiles, direct precompile calls), block time steps of '
             'seconds to days (coinomics minting), absent validators (downtime slashing), double-sign evidence, occasionally the v1.7.5 '
-            'upgrade; all 12 registered invariant routes are evaluated on the deliver state after EndBlock and on the committed store after '
+            'upgrade; PARAMETER OPERATIONS inside the blocks ({"k":"param"}: the module\'s current parameters with the listed keys '
+            'overwritten go through the real MsgUpdateParams handler of the message router with the governance authority as signer — erc20 '
+            'EnableErc20 / EnableEVMHook, evm EnableCall / EnableCreate / a subset of the implemented precompiles, bank DefaultSendEnabled and '
+            'per-denomination SendEnabled (MsgSetSendEnabled), staking unbonding time / max entries / historical entries, distribution '
+            'withdraw_addr_enabled / community tax, gov burn switches, slashing fractions; coinomics and liquidvesting switches and amounts by a '
+            'ParameterChangeProposal inside MsgExecLegacyContent; some with an unknown key, refused as a whole; earlier changes are put back '
+            'later), and after each of them a sweep of user transactions that name a BLOCKED ADDRESS (each of the 13 module accounts and 6 '
+            'precompile addresses, the four accounts with an equality invariant — distribution, bonded, not-bonded, gov — most often) as '
+            'recipient / withdraw address / delegator: MsgSend (several denominations), MsgMultiSend, Ethereum transfers and script-contract calls '
+            'with value, set-withdraw-address then withdraw, liquidvesting liquidate / redeem, erc20 convert both ways, DAO transfers, vesting '
+            'conversion, authz exec, community-pool spend; ORACLE beside the invariant routes: an accepted transaction after which its named '
+            'blocked recipient holds more coins than before (for the fee collector: other than the fee coin, or an accepted plain send) is a '
+            'violation, reported with height, position, kind, signer, recipient and the parameters changed so far; the parameter operations and '
+            'the sends / multi-sends to blocked addresses of every history go to the model as (uop, accepted) terms (list hist, hmismatches: '
+            'a message the step function refuses in every state must not have been accepted); all 12 registered invariant routes are evaluated on the deliver state after EndBlock and on the committed store after '
             'Commit; non-trivial = at least 5 accepted transactions of at least 3 kinds; distinct = distinct histories. bankops: a case is '
             'a sequence of 4-9 operations on a copy-on-write fork of a prepared real application (governance holds deposits in five '
-            'denominations); burns through the Haqq bank keeper take one coin or a coin LIST of 0-5 denominations (valid, one coin not '
+            'denominations); about a quarter of the operations are user level: the x/erc20 parameter through the real MsgUpdateParams handler, '
+            'MsgSend and MsgMultiSend through the real bank message server (message router), half of them to blocked addresses, some of a '
+            'denomination with a token pair (converted and moved as ERC20 tokens while the module is enabled); an accepted message to a blocked '
+            'address is an oracle failure and a model mismatch; burns through the Haqq bank keeper take one coin or a coin LIST of 0-5 denominations (valid, one coin not '
             'covered, a zero amount, a denomination twice); besides the comparison with the model the registered invariant '
             'distribution/module-account must survive every operation that does not pay the distribution account directly, and a refused '
             'burn must be refused by the model too; non-trivial = at least two accepted',
@@ -46,13 +73,18 @@ P = {
         'Coq 8.16.1 kernel incl. vm_compute (no native_compute); std++ 1.8.0 gmap',
         'axioms: none (Print Assumptions: closed under the global context for every theorem of Props/C15.v)',
         'harness: harness/blocks.go (genesis, signing, ABCI driver, CometBFT-style validator-set tracking), blockgen.go (generator), '
-        'invariants.go, bankops.go + vlib/core.py',
+        'blockparams.go (parameter operations, blocked-address actors, their generator), invariants.go, bankops.go + vlib/core.py',
         'not verified, sampled only: Cosmos-SDK staking / distribution / gov / slashing / evidence keepers and their registered invariants, '
         'baseapp, go-ethereum interpreter, precompiles, IAVL',
         'modelled, tied by the bankops correspondence: SDK bank SendCoins / MintCoins / BurnCoins, Haqq bank BurnCoins override, coinomics '
-        'MintAndAllocate, ucdao Fund, liquidvesting Liquidate / Redeem, erc20 ConvertCoin / ConvertERC20 (native coin pairs), evm SetBalance',
+        'MintAndAllocate, ucdao Fund, liquidvesting Liquidate / Redeem, erc20 ConvertCoin / ConvertERC20 (native coin pairs), evm SetBalance; '
+        'Haqq bank message server Send (recipient check, branch on EnableErc20, conversion of a paired denomination) and MultiSend, x/erc20 UpdateParams',
     ],
     'assumptions': [
+        'parameter operations change only the keys listed in harness/blockparams.go (denominations, chain config, extra EIPs, validator count, '
+        'periods of governance stay as at genesis); the unbonding time is never set below 10 s (see the assumption on validator-set changes); '
+        'ucdao keeps its parameters in its own store and has no message to change them: not varied',
+        'a message is signed by a user key: the sender of a modelled MsgSend / MsgMultiSend is not a blocked address (signed_by_user)',
         'coin lists reach the bank in the order of their denomination strings (sdk.NewCoins / validated messages); the model checks the '
         'rest of Coins.Validate (positive amounts, no denomination twice), the harness presents every list in that order',
         'the histories use unbonding times of seconds; a validator that left the set keeps voting for two blocks as in CometBFT, and the '
